@@ -60,7 +60,8 @@ def gen_case(run_seed: int, tier: str, index: int = 0) -> dict:
         n = r.choice([6, 12, 20, 30])
         return {"property": PROPERTY, "run_seed": run_seed, "ops": ops.bootstrap_ops() + ops.gen_ops(r, n), "enumerate": True}
     n = r.choice([15, 20, 30, 40, 55, 70])
-    return {"property": PROPERTY, "run_seed": run_seed, "ops": ops.bootstrap_ops() + ops.gen_ops(r, n)}
+    # configuration knob of the library itself: onnx_ir.DEBUG turns on extra argument and invariance checks
+    return {"property": PROPERTY, "run_seed": run_seed, "ops": ops.bootstrap_ops() + ops.gen_ops(r, n), "debug": Streams(run_seed).rng("debug-knob").random() < 0.25}
 
 
 def enum_trials() -> list:
@@ -98,6 +99,8 @@ def run_history(op_list: list, *, want: str, known, stats: dict, skip: set, trac
         stats[k] = stats.get(k, 0) + n
 
     w = World()
+    if stats is not None and DEBUG_KNOB["on"]:
+        inc("runs_with_onnx_ir_DEBUG")
     for i, op in enumerate(op_list):
         if i in skip:
             continue
@@ -143,6 +146,22 @@ def run_case(case: dict) -> dict:
     skip: set = set(case.get("skip", []))
     trace: list = []
     known_seen = []
+    import onnx_ir
+
+    DEBUG_KNOB["on"] = bool(case.get("debug"))
+    saved_debug = onnx_ir.DEBUG
+    onnx_ir.DEBUG = bool(case.get("debug"))
+    try:
+        return _run_case_body(case, res, known, want, op_list, skip, trace, known_seen, stats)
+    finally:
+        onnx_ir.DEBUG = saved_debug
+        DEBUG_KNOB["on"] = False
+
+
+DEBUG_KNOB = {"on": False}
+
+
+def _run_case_body(case, res, known, want, op_list, skip, trace, known_seen, stats):
     for _attempt in range(12):
         trace.clear()
         st_local: dict = {}
